@@ -349,6 +349,9 @@ def rule_ow_mut(cx, rep, port):
             if inputs:
                 src = inputs[0][1]
                 rep.violated(key, node, 'the object modified here can be a caller\'s source object (origin: `{}` at line {}): the query changes its input'.format(node_text(src, 80), getattr(src, 'lineno', '?')))
+            elif any(a[0] == 'global' for a in atoms) and not isinstance(getattr(node, 'parent', None), ast.Module):
+                src = [a for a in atoms if a[0] == 'global'][0][1]
+                rep.violated(key, node, 'the object modified here can be (an element of) the module-level object defined by `{}`: state shared by every query in the process is changed, so a later query sees what an earlier one left behind'.format(node_text(src, 70)))
             elif any(a[0] == 'unknown' for a in atoms):
                 n_unknown += 1
             else:
@@ -461,3 +464,84 @@ def _select_templates_fresh(cx, port):
             ok = ok and fresh
         return ok
     return cx.cached(('select_templates_fresh', port), compute)
+
+
+def rule_ow_selwrap(cx, rep, port):
+    """the select fragment that reaches the generated program is the list-display text produced by translate_select_expression
+    (or the select_except(...) call text) and passes only through literal re-insertion: nothing may strip the wrapper that makes
+    every evaluation allocate a fresh list"""
+    p = cx.port(port)
+    mod = cx.engine_mod(port)
+    rep.decide(_select_templates_fresh(cx, port), 'select templates', p.func(mod, 'translate_select_expression'), 'translate_select_expression returns a list display, translate_except_expression a select_except(...) call', 'the text returned for the select list is no longer a list display / select_except call: star items and plain lists could evaluate to an input record itself')
+    sp = p.func(mod, 'shallow_parse_input_query')
+    stores = [n for n in walk_no_nested(sp) if isinstance(n, ast.Assign) and (dotted(n.targets[0]) or '') == 'query_context.select_expression']
+    rep.require_count('select_expression stores', len(stores), 1, sp)
+    for st in stores:
+        chain = []
+        ok, why = _trace_select_text(p, mod, sp, st.value, st, chain, 0)
+        key = 'select fragment `{}`'.format(node_text(st, 80))
+        if ok is True:
+            rep.holds(key, st, 'produced by {} and passed only through {}'.format(why, ', '.join(chain) or 'nothing'))
+        elif ok is False:
+            rep.violated(key, st, why)
+        else:
+            rep.undecided(key, st, why)
+
+
+def _trace_select_text(p, mod, sp, e, at, chain, depth):
+    if depth > 6:
+        return None, 'definition chain too deep'
+    if isinstance(e, ast.Call):
+        nm = call_name(e) or ''
+        if nm == 'combine_string_literals' and e.args:
+            chain.append('combine_string_literals')
+            return _trace_select_text(p, mod, sp, e.args[0], at, chain, depth + 1)
+        g = p.func(mod, nm, required=False)
+        if g is not None and e.args and nm not in ('translate_select_expression', 'translate_except_expression'):
+            # an extra transformation of the fragment text: does it cut or rewrite its argument?
+            prm = g.args.args[0].arg if g.args.args else None
+            cuts = [x for x in walk_no_nested(g) if (isinstance(x, ast.Subscript) and isinstance(x.slice, ast.Slice) and prm in names_in(x.value)) or (isinstance(x, ast.Call) and isinstance(x.func, ast.Attribute) and x.func.attr in ('replace', 'strip', 'lstrip', 'rstrip', 'substring', 'substr', 'slice', 'removeprefix', 'removesuffix') and prm in names_in(x.func.value)) or (isinstance(x, ast.Call) and dotted(x.func) == 're.sub')]
+            if cuts:
+                return False, 'the select fragment is post-processed by {}(), which cuts or rewrites the text (`{}`): the list display that makes `select *` / `a.*` evaluate to a fresh list can be stripped, so output records alias input rows'.format(nm, node_text(cuts[0], 60))
+            return None, 'the select fragment passes through {}(), whose effect on the list-display wrapper is not known'.format(nm)
+        return None, 'select fragment comes from `{}`'.format(node_text(e, 60))
+    if isinstance(e, ast.Name):
+        defs = [n for n in walk_no_nested(sp) if isinstance(n, ast.Assign) and any(e.id in _tnames(t) for t in n.targets) and n.lineno < at.lineno]
+        if not defs:
+            return None, 'no definition of `{}`'.format(e.id)
+        results = []
+        for d in defs:
+            t = d.targets[0]
+            if isinstance(t, (ast.Tuple, ast.List)) and isinstance(d.value, ast.Call):
+                nm = call_name(d.value) or ''
+                idx = [i for i, x in enumerate(t.elts) if isinstance(x, ast.Name) and x.id == e.id]
+                if nm == 'translate_select_expression' and idx == [0]:
+                    results.append((True, 'translate_select_expression'))
+                    continue
+                if nm == 'translate_except_expression' and idx == [1]:
+                    results.append((True, 'translate_except_expression'))
+                    continue
+                results.append((None, '`{}` is element {} of {}()'.format(e.id, idx, nm)))
+                continue
+            if d.value is e:
+                continue
+            results.append(_trace_select_text(p, mod, sp, d.value, d, chain, depth + 1))
+        bad = [r for r in results if r[0] is False]
+        if bad:
+            return bad[0]
+        unk = [r for r in results if r[0] is None]
+        if unk:
+            return unk[0]
+        return True, ' / '.join(sorted({r[1] for r in results}))
+    return None, 'select fragment expression `{}` not recognised'.format(node_text(e, 60))
+
+
+def _tnames(t):
+    if isinstance(t, ast.Name):
+        return {t.id}
+    if isinstance(t, (ast.Tuple, ast.List)):
+        out = set()
+        for x in t.elts:
+            out |= _tnames(x)
+        return out
+    return set()
